@@ -33,6 +33,10 @@ def units(tier):
     add("D=3 cancel=2 cancel2=0 stubborn=2", D=3, cancel=2, cancel2=0, stubborn=2, shields=(False, False, False), J=1, post0=True, native_after=False)
     add("D=2 deadline=1 cancel=0", D=2, deadlines=(1,), cancel=0, shields=(False, False), J=1, native_after=False)
     add("D=2 pre_cancel=1", D=2, pre_cancel=1, native_after=False)
+    add("D=1 cancel=0 host already natively cancelled once", D=1, cancel=0, pre_native=True, J=2)
+    add("D=2 cancel=1 cancel2=0 host already natively cancelled once", D=2, cancel=1, cancel2=0, pre_native=True, J=1, post0=True, shields=(False, False))
+    add("D=1 deadline assigned before entry", D=1, deadlines=(0,), deadline_outside="before", native_after=False)
+    add("D=1 deadline assigned after exit", D=1, deadlines=(0,), deadline_outside="after", native_after=False)
     if not quick:
         add("D=3 cancel=1 cancel2=0 sym shields", D=3, cancel=1, cancel2=0, J=1, post0=True)
         add("D=3 cancel=2 cancel2=1 stubborn=2", D=3, cancel=2, cancel2=1, stubborn=2, shields=(False, False, False), J=1)
